@@ -10,6 +10,9 @@
  *   C <itv1> <itv2>             lp_interval_cmp / _cmp_with_intersect (fresh and pre-used P) / bounds / cmp_value
  *   Q <set>                     integer queries on sets with rational end points given literally
  *   A <set>                     integer queries and picks on sets with ALGEBRAIC / mixed end points (valio.h tokens)
+ *   S <set1> <set2>             intersect (+status) / union both ways of two sets given by valio.h tokens (A syntax), the
+ *                               results printed as tokens, their flags, integer queries and picks, membership of the
+ *                               operands' end points
  *
  * set syntax:  {}  |  itv(;itv)*      itv:  {e}  |  [e,e]  (e,e)  [e,e)  (e,e]
  * B/C end point e: rank or rank.variant;   Q end point e: -inf | +inf | i<z> | q<n>/<d> | d<a>/<k> (= a/2^k)
@@ -502,6 +505,60 @@ static void op_A(void) {
   free_specs(sp, n);
 }
 
+/* ---- S: set operations on sets whose end points are valio tokens */
+static void vset_print(const lp_feasibility_set_t* s) {
+  if (s->size == 0) { printf("{}"); return; }
+  for (size_t i = 0; i < s->size; ++i) {
+    const lp_interval_t* I = &s->intervals[i];
+    if (i) putchar(';');
+    if (I->is_point) { putchar('{'); vio_print(&I->a); putchar('}'); if (I->a_open || I->b_open) printf("!open-point"); }
+    else { putchar(I->a_open ? '(' : '['); vio_print(&I->a); putchar('|'); vio_print(&I->b); putchar(I->b_open ? ')' : ']'); }
+  }
+}
+static void int_queries(const lp_feasibility_set_t* s) {
+  printf("%d,%ld,%d,", lp_feasibility_set_contains_int(s) ? 1 : 0, lp_feasibility_set_count_int(s),
+         lp_feasibility_set_is_point_int(s) ? 1 : 0);
+  for (size_t i = 0; i < s->size; ++i) putchar(lp_interval_contains_int(&s->intervals[i]) ? '1' : '0');
+  putchar(',');
+  for (size_t i = 0; i < s->size; ++i) printf("%s%ld", i ? "+" : "", lp_interval_count_int(&s->intervals[i]));
+}
+static void vpick(const lp_feasibility_set_t* s) {
+  if (lp_feasibility_set_is_empty(s)) { printf("-"); return; }
+  lp_value_t v; lp_value_construct_int(&v, 12345);            /* pre-used output */
+  lp_feasibility_set_pick_value(s, &v);
+  vio_print(&v);
+  lp_value_destruct(&v);
+}
+static void vsweep(const lp_feasibility_set_t* s, const ivspec_t* sp, int n) {
+  for (int i = 0; i < n; ++i) {
+    putchar(lp_feasibility_set_contains(s, &sp[i].lo) ? '1' : '0');
+    putchar(lp_feasibility_set_contains(s, &sp[i].hi) ? '1' : '0');
+  }
+}
+static void op_S(void) {
+  static ivspec_t sp1[MAXIV], sp2[MAXIV];
+  if (vntok != 3) { printf("BAD-CASE"); return; }
+  int n1 = parse_set(vtok[1], 2, sp1), n2 = parse_set(vtok[2], 2, sp2);
+  lp_feasibility_set_t* s1 = set_of_specs(sp1, n1);
+  lp_feasibility_set_t* s2 = set_of_specs(sp2, n2);
+  lp_feasibility_set_intersect_status_t st = (lp_feasibility_set_intersect_status_t)77;
+  lp_feasibility_set_t* si = lp_feasibility_set_intersect_with_status(s1, s2, &st);
+  lp_feasibility_set_t* su = lp_feasibility_set_new_copy(s1); lp_feasibility_set_add(su, s2);
+  lp_feasibility_set_t* sv = lp_feasibility_set_new_copy(s2); lp_feasibility_set_add(sv, s1);
+  printf("i:"); vset_print(si); printf(" st:%d", (int)st);
+  printf(" u:"); vset_print(su);
+  printf(" v:"); vset_print(sv);
+  printf(" f:"); flags(si); flags(su);
+  printf(" q1:"); int_queries(s1); printf(" q2:"); int_queries(s2);
+  printf(" qi:"); int_queries(si); printf(" qu:"); int_queries(su);
+  printf(" ki:"); vpick(si); printf(" ku:"); vpick(su);
+  /* membership of every operand end point (infinite ends included) in the results */
+  printf(" m:"); vsweep(si, sp1, n1); vsweep(si, sp2, n2); putchar(','); vsweep(su, sp1, n1); vsweep(su, sp2, n2);
+  lp_feasibility_set_delete(si); lp_feasibility_set_delete(su); lp_feasibility_set_delete(sv);
+  lp_feasibility_set_delete(s1); lp_feasibility_set_delete(s2);
+  free_specs(sp1, n1); free_specs(sp2, n2);
+}
+
 int main(void) {
   pool_init();
   while (next_case()) {
@@ -516,6 +573,7 @@ int main(void) {
     else if (is_op("C")) op_C();
     else if (is_op("Q")) op_Q();
     else if (is_op("A")) op_A();
+    else if (is_op("S")) op_S();
     else if (is_op("POOL")) printf("%d", NPOOL);
     else printf("UNKNOWN-OP");
     end_case();
